@@ -284,6 +284,7 @@ def verify_function(ctx, relpath, qual, canary=True, struct=None, label=None):
     fr = Frame(mod, qual, node, c, 0)
     st = State()
     st.pc.extend(ctx.axioms)
+    smt.FLATTEN[0] = bool(getattr(ctx, 'flat_mode', False))
     params = [a.arg for a in node.args.args]
     for a in node.args.args:
         if a.arg in c.funparams:
@@ -464,7 +465,11 @@ def save_strategy_hints(new):
     cur = load_strategy_hints()
     changed = False
     for k, v in new.items():
-        if cur.get(k) != v:
+        if v == '<drop>':
+            if k in cur:
+                del cur[k]
+                changed = True
+        elif cur.get(k) != v:
             cur[k] = v
             changed = True
     if changed:
@@ -508,6 +513,9 @@ def _work(args):
     name, kind, r, ns, be = strat
     ctx, ob = _G['ctx'], _G['obs'][idx]
     t0 = time.time()
+    smt.FLATTEN[0] = bool(getattr(ob, 'flatten', False))
+    # instantiation is cut off too (a blow-up must end as "undecided", never as a hang)
+    smt.DEADLINE[0] = t0 + 2 * timeout + 10
     try:
         if kind == 'ground':
             parts = [list(ctx.axioms) + list(ob.hyps) + [z3.Not(ob.goal)]]
@@ -525,6 +533,8 @@ def _work(args):
                 status = st_ if (kind == 'full' and len(parts) == 1) else 'unknown'
                 break
         return idx, name, be, status, time.time() - t0, None
+    except smt.InstTimeout:
+        return idx, name, be, 'unknown', time.time() - t0, None
     except Exception as e:
         return idx, name, be, 'unknown', time.time() - t0, 'strategy %s failed for %s: %r' % (name, ob.name, e)
 
@@ -547,6 +557,23 @@ def portfolio(ctx, ob, rounds, backends):
     return plan
 
 
+def _bounded_iter(it, deadline, ctx):
+    """Results of a pool map until a hard wall-clock deadline: a worker that ignores its solver timeout (huge formulas in
+    preprocessing) must end as "undecided", never as a hang of the whole check."""
+    while True:
+        left = deadline - time.time()
+        if left <= 0:
+            ctx.notes.append('hard wall-clock budget of the discharge phase exhausted: remaining obligations left undecided')
+            return
+        try:
+            yield it.next(timeout=left)
+        except StopIteration:
+            return
+        except mp.TimeoutError:
+            ctx.notes.append('hard wall-clock budget of the discharge phase exhausted: remaining obligations left undecided')
+            return
+
+
 def discharge(ctx, obligations=None, timeout=20, procs=None, backends=('z3py', 'z3-4.8'), rounds=2, progress=None):
     """Discharge obligations. Phase 1: ground VC; phase 2: one instantiation round; phase 3: a portfolio run
     concurrently (full instantiation on every back end, NRA abstraction, proof by cases on the last index of bounded
@@ -556,6 +583,7 @@ def discharge(ctx, obligations=None, timeout=20, procs=None, backends=('z3py', '
     obligations = ctx.obligations if obligations is None else obligations
     procs = procs or min(16, os.cpu_count() or 4)
     t0 = time.time()
+    hard_deadline = t0 + max(1200, 30 * timeout)
     todo = []
     for i, ob in enumerate(obligations):
         if z3.is_true(z3.simplify(ob.goal)):
@@ -574,7 +602,7 @@ def discharge(ctx, obligations=None, timeout=20, procs=None, backends=('z3py', '
                 t_ph = time.time()
                 jobs = [(i, (name, kind, r, False, backends[0]), tmo) for i in todo]
                 left = set(todo)
-                for (i, nm, be, st_, secs, err) in pool.imap_unordered(_work, jobs, chunksize=1):
+                for (i, nm, be, st_, secs, err) in _bounded_iter(pool.imap_unordered(_work, jobs, chunksize=1), hard_deadline, ctx):
                     ob = obligations[i]
                     ob.seconds += secs
                     if err:
@@ -595,10 +623,12 @@ def discharge(ctx, obligations=None, timeout=20, procs=None, backends=('z3py', '
                             plan = [p for p in plan if p[0] == hints.get(keys[id(ob)])]
                         state[i] = dict(open=len(plan), resolved=len(plan) == 0, sat=None, refutes={(p[0], p[4]): p[5] for p in plan})
                         for p in plan:
-                            jobs.append((i, p[:5], timeout))
+                            # a remembered strategy gets a short budget: if it is slow (stale hint), the whole portfolio runs
+                            # and the fastest strategy replaces it
+                            jobs.append((i, p[:5], min(timeout, 15) if hinted else timeout))
                     if not jobs:
                         return state
-                    for (i, nm, be, st_, secs, err) in pool.imap_unordered(_work, jobs, chunksize=1):
+                    for (i, nm, be, st_, secs, err) in _bounded_iter(pool.imap_unordered(_work, jobs, chunksize=1), hard_deadline, ctx):
                         ob, st = obligations[i], state[i]
                         st['open'] -= 1
                         if err:
@@ -607,6 +637,9 @@ def discharge(ctx, obligations=None, timeout=20, procs=None, backends=('z3py', '
                             ob.seconds += secs
                             if st_ == 'unsat':
                                 ob.status, ob.backend, ob.strategy = 'discharged', '%s/%s' % (be, nm), nm
+                                if hinted and secs > 20:
+                                    # the remembered strategy works but is slow: forget it, the next run picks the fastest
+                                    ob.strategy = '<drop>'
                                 st['resolved'] = True
                             elif st_ == 'sat' and st['refutes'].get((nm, be)):
                                 st['sat'] = '%s/%s' % (be, nm)
